@@ -12,12 +12,12 @@ Lemma parse_agree : mem_s "py_parse" translated = true ->
   = parse msgmode validate bf message.
 Proof.
   intros Hin msgmode validate bf message. first [untranslated Hin | clear Hin].
-  unfold py_parse, parse, parse_front, valcksum.
-  cbn [g_len g_sub g_add g_band g_slice g_le g_lt g_in existsb gbytes gint bind g_eq pv_eq g_is_none gnone negb
+  all: unfold py_parse, parse, parse_front, valcksum.
+  all: cbn [g_len g_sub g_add g_band g_slice g_le g_lt g_in existsb gbytes gint bind g_eq pv_eq g_is_none gnone negb
        g_calc_checksum g_getinputmode g_bytes2val].
-  rewrite ?truth_land1, ?bytes2val_U2, <- ?app_assoc, ?app_nil_r.
-  cbn [bind g_eq pv_eq].
-  atoms;
+  all: rewrite ?truth_land1, ?bytes2val_U2, <- ?app_assoc, ?app_nil_r.
+  all: cbn [bind g_eq pv_eq].
+  all: atoms;
     cbn [bind orb andb negb run_call String.eqb Ascii.eqb Bool.eqb f_cls f_id f_payload];
     try reflexivity; try (exfalso; lia);
     cbn [gbytes gint]; rewrite ?N2Z.id, ?truth_gbool;
